@@ -4,6 +4,8 @@ import (
 	"context"
 	"encoding/json"
 	"fmt"
+	"io"
+	"log"
 	"math/rand"
 	"sort"
 	"sync"
@@ -116,7 +118,7 @@ func c17Run(p c17Plan, rnd *rand.Rand) c17Result {
 		}
 		time.Sleep(2 * time.Millisecond)
 		s = take()
-		if len(s.ring) > 0 {
+		if len(s.ring) > 0 && s.cursor >= 0 && s.cursor < len(s.ring) {
 			dueAt = s.ring[s.cursor] + s.window
 		} else {
 			dueAt = now()
@@ -153,8 +155,15 @@ func c17Run(p c17Plan, rnd *rand.Rand) c17Result {
 			if dueAt > c {
 				res.Waited++
 			}
-			_ = r.Wait(context.Background())
+			wctx, wcancel := context.WithTimeout(context.Background(), 15*time.Second)
+			werr := r.Wait(wctx)
+			wcancel()
 			e := now()
+			if werr != nil {
+				// the limiter never admitted: record it as an operation the model does not know
+				add(c17Obs{Tag: 9, C: c, E: e, Note: "Wait did not return within 15 s"}, take())
+				return res
+			}
 			add(c17Obs{Tag: 0, C: c, E: e, Res: 1}, afterAdmission(1))
 		case "allow":
 			slack := dueAt - now()
@@ -313,10 +322,14 @@ func c17Run(p c17Plan, rnd *rand.Rand) c17Result {
 				wg.Add(1)
 				go func() {
 					defer wg.Done()
-					_ = r.Wait(context.Background())
+					wctx, wcancel := context.WithTimeout(context.Background(), 20*time.Second)
+					werr := r.Wait(wctx)
+					wcancel()
 					e := now()
 					mu.Lock()
-					ends = append(ends, e)
+					if werr == nil {
+						ends = append(ends, e)
+					}
 					mu.Unlock()
 				}()
 			}
@@ -514,6 +527,7 @@ func c17Throttle() []emit.OracleCheck {
 }
 
 func runC17(tier string, seed int64, outdir string, replay string) error {
+	log.SetOutput(io.Discard) // a limiter whose loop panics logs a stack trace
 	w := emit.NewWriter(outdir, "C17", tier, seed)
 	defer w.Close()
 	w.Meta.Rule = "distinct histories in which at least one admission had to wait for a slot or the limit/window was effectively changed"
@@ -569,7 +583,7 @@ func runC17(tier string, seed int64, outdir string, replay string) error {
 		pj, _ := json.Marshal(j.plan)
 		adm := 0
 		for _, o := range res.Obs {
-			w.Hist("op=" + []string{"Wait", "Allow", "sleep", "SetMaxEvents", "SetWindow", "Wait(cancelled ctx)", "Wait(cancel later)", "burst"}[o.Tag])
+			w.Hist("op=" + []string{"Wait", "Allow", "sleep", "SetMaxEvents", "SetWindow", "Wait(cancelled ctx)", "Wait(cancel later)", "burst", "?", "Wait never returned"}[min(o.Tag, 9)])
 			switch o.Tag {
 			case 0:
 				adm++
